@@ -47,6 +47,7 @@ THEOREMS: list[str] = [
     "IrVerif.Inline.C05_inline_partial",
     "IrVerif.Inline.C05_inline_nested_partial",
     "IrVerif.Inline.C05_inline",
+    "IrVerif.Inline.C05_inline_total",
     "IrVerif.Inline.C05_coherent",
     "IrVerif.Inline.C05_coherent_lift",
     "IrVerif.Inline.C05_call_depth",
@@ -63,22 +64,27 @@ ASSUMPTIONS = [
     "`sem` (any function: determinism only), Identity and Constant fixed, graph attributes denoted under the current "
     "environment; names, types, shapes, metadata, opset versions are not part of the modelled IR; in Model/Sem.lean a "
     "model-local function body is a graph and a call site is an operator interpreted by `sem`",
-    "function-call IR (Model/Inline.lean, theorems C05_inline_partial / C05_call_depth / C05_unused_functions / "
-    "C05_unused_opsets): a call denotes the body of the function under the call's inputs (missing ones absent) and "
-    "attribute bindings (call attributes, then defaults; reference attributes resolved in the enclosing binding, "
-    "absent when unbound), unrolled to a depth; evaluated argument lists are trimmed of trailing absent values; "
-    "validF (validModel of the erased model, distinct function ids, non-recursive call graph, call sites fit their "
-    "functions, no reference attribute on a call whose function declares a default for it, no stochastic operator "
-    "and no input-that-is-initializer subgraph in function bodies) and flatFuncs (function bodies without calls: the "
-    "extra hypothesis of C05_inline_partial) are evaluated by the driver on every generated case: fcorr_valid / "
-    "fcorr_flat / fcorr_hyp_partial / fcorr_assumption_unmet in the distribution; nested calls (flatFuncs false) are "
-    "compared with the model (inlAt) and evaluated by the oracle but not covered by a theorem",
-    "InlinePass model: total function; the error exits of the real pass (opset version mismatch, graph attribute "
-    "parameters, more inputs than the function has, outer-scope value in a function body) are outside validF: when "
-    "the real pass raises, the driver must report validF false (fcorr_raised_checked); if the unrolling budget of the "
-    "model runs out or a call to a deleted function would remain the model returns the input (driver flags stuck / "
-    "dangling; either is a disagreement); opset-import bookkeeping of InlinePass is not modelled (domains are compared "
-    "for RemoveUnusedOpsetsPass only); InlinePass(criteria=even) = criteria on the parity of the function name",
+    "function-call IR (Model/Inline.lean, theorems C05_inline / C05_inline_total / C05_inline_nested_partial / "
+    "C05_inline_partial / C05_call_depth / C05_unused_functions / C05_unused_opsets / C05_coherent*): a call denotes "
+    "the body of the function under the call's inputs (missing ones absent) and attribute bindings (call attributes, "
+    "then defaults; reference attributes resolved in the enclosing binding, absent when unbound), unrolled to a depth; "
+    "evaluated argument lists are trimmed of trailing absent values; an Identity whose argument is absent yields an "
+    "absent result; validF (no local function ::Identity, validModel of the erased model, distinct function ids, "
+    "non-recursive call graph, call sites fit their functions, no reference attribute on a call whose function "
+    "declares a default for it, no stochastic operator and no input-that-is-initializer subgraph in function bodies), "
+    "flatFuncs (extra hypothesis of C05_inline_partial) and pureMain (hypothesis of C05_coherent) are evaluated by "
+    "the driver on every generated case: fcorr_valid / fcorr_hyp_inline / fcorr_hyp_nested / fcorr_flat / "
+    "fcorr_hyp_partial / fcorr_pure_main_* / fcorr_assumption_unmet in the distribution",
+    "InlinePass model: total function; when a call does not supply a function input that the function returns the "
+    "real pass raises and the model predicts it (flag raised, fcorr_raised_predicted); the other error exits of the "
+    "real pass (opset version mismatch, graph attribute parameters, more inputs than the function has, outer-scope "
+    "value in a function body, a local function ::Identity) are outside validF: when the real pass raises, the driver "
+    "must report raised or validF false (fcorr_raised_checked); the fall-back flags of the model (stuck, dangling, "
+    "accepted_left, syn_bad, depth_bad) are proved false on valid models (C05_inline_total) and any of them is a "
+    "disagreement; opset-import bookkeeping of InlinePass is not modelled (domains are compared for "
+    "RemoveUnusedOpsetsPass only); InlinePass(criteria=even) = criteria on the parity of the function name",
+    "every call of a real pass runs under a CPU (10 s) and wall-clock (240 s) guard; a pass that does not return is "
+    "a failure nontermination:<Pass>:<family>",
     "hypotheses of the theorems (validModel: SSA, outputs bound in their graph, topologically ordered, scoped) "
     "are evaluated by the driver on every generated case: counted as "
     "corr_valid / corr_chain_ok / corr_assumption_unmet in the distribution",
@@ -333,6 +339,49 @@ def _trunc(obj, n: int = 1500) -> str:
     return s if len(s) <= n else s[:n] + "..."
 
 
+class PassTimeout(BaseException):
+    """a call of the implementation did not return within the CPU / wall-clock guard (not an Exception: neither the
+    code under test nor the harness may swallow it by accident)"""
+
+
+_PASS_CPU_S = float(os.environ.get("C05_PASS_CPU_S", "10"))     # passes on the generated models take milliseconds
+_PASS_WALL_S = float(os.environ.get("C05_PASS_WALL_S", "240"))  # a blocked (not spinning) call; generous under load
+
+
+def _apply(p, model, cpu_s: float | None = None, wall_s: float | None = None):
+    """`p(model)` for a pass object of the implementation, under a CPU-time and a wall-clock interval timer.  Every
+    call of the real code that could fail to return goes through here (main process and pmap workers alike: both run
+    the harness in the main thread of their process), so that a non-terminating pass becomes a failure
+    `nontermination:<pass>:<family>` instead of a hung check."""
+    import signal
+    import threading
+
+    if threading.current_thread() is not threading.main_thread():
+        return p(model)
+
+    def _h(signum, frame):
+        raise PassTimeout(f"{type(p).__name__} did not return ({'CPU' if signum == signal.SIGVTALRM else 'wall'} guard)")
+
+    old_v = signal.signal(signal.SIGVTALRM, _h)
+    old_r = signal.signal(signal.SIGALRM, _h)
+    signal.setitimer(signal.ITIMER_VIRTUAL, cpu_s or _PASS_CPU_S)
+    signal.setitimer(signal.ITIMER_REAL, wall_s or _PASS_WALL_S)
+    try:
+        return p(model)
+    finally:
+        signal.setitimer(signal.ITIMER_VIRTUAL, 0)
+        signal.setitimer(signal.ITIMER_REAL, 0)
+        signal.signal(signal.SIGVTALRM, old_v)
+        signal.signal(signal.SIGALRM, old_r)
+
+
+def _nonterm_failure(part, pass_name: str, family: str, what: str, case: dict) -> None:
+    sig = f"nontermination:{_base_name(pass_name)}:{family}"
+    part.count("nontermination:" + _base_name(pass_name))
+    if not any(f["signature"] == sig for f in part["failures"]) and len(part["failures"]) < 40:
+        part["failures"].append({"signature": sig, "what": f"{pass_name} did not return: {what}"[:400], "case": case})
+
+
 def _run_real(name: str, model):
     """apply the real pass; RemoveUnusedNodesPass runs without its schema-driven output trimming"""
     if _base_name(name) == "RemoveUnusedNodesPass":
@@ -341,10 +390,10 @@ def _run_real(name: str, model):
         saved = UR._remove_unused_optional_outputs
         UR._remove_unused_optional_outputs = lambda *a, **k: False
         try:
-            return PASSES[name]()(model)
+            return _apply(PASSES[name](), model)
         finally:
             UR._remove_unused_optional_outputs = saved
-    return PASSES[name]()(model)
+    return _apply(PASSES[name](), model)
 
 
 def _shuffle_nodes(model, rng) -> int:
@@ -385,11 +434,14 @@ def _correspond_reorder(part, case_id, ir_model_before_factory) -> None:
         rng = random.Random("C05:shuffle:" + str(case_id.get("sha1", "")))
         changed = _shuffle_nodes(model, rng)
         a = enc.model(model)
-        PASSES["TopologicalSortPass"]()(model)
+        _apply(PASSES["TopologicalSortPass"](), model)
         b = enc.model(model)
         raw_b = ir.serde.serialize_model(model).SerializeToString()
     except Unencodable:
         part.count("corr_skipped:unencodable")
+        return
+    except PassTimeout as e:
+        _nonterm_failure(part, "TopologicalSortPass", "shuffled-model", str(e), {"origin": case_id, "kind": "shuffled"})
         return
     except Exception as e:  # noqa: BLE001
         part["failures"].append({"signature": f"raise:TopologicalSortPass:shuffled:{type(e).__name__}",
@@ -474,6 +526,11 @@ def correspond(part, case_id, ir_model_before_factory, seq_names):
             skip = "dce_ghost_uses_from_earlier_pass"
         try:
             _run_real(name, model)
+        except PassTimeout as e:
+            _nonterm_failure(part, name, "correspondence", f"step {i} of {list(seq_names)}: {e}",
+                             {"origin": case_id, "seq": list(seq_names)})
+            close_segment(before)
+            break
         except Exception as e:  # noqa: BLE001
             part.count("corr_skipped:real_pass_raised:" + _base_name(name) + ":" + type(e).__name__)
             if lean_name is not None:
@@ -715,6 +772,9 @@ def _fcorr_step(part, case_id, name: str, model, where, crit=None) -> bool:
         part.count("fcorr_skipped:unencodable:" + str(e)[:40])
         try:
             _run_real(name, model)
+        except PassTimeout as e:
+            _nonterm_failure(part, name, "correspondence", str(e), {"origin": case_id, "seq": [name]})
+            return False
         except Exception:  # noqa: BLE001
             return False
         return True
@@ -727,9 +787,12 @@ def _fcorr_step(part, case_id, name: str, model, where, crit=None) -> bool:
 
             ids = {tuple(i) for i in crit}
             req["crit"] = [list(i) for i in sorted(ids)]
-            res = P.InlinePass(criteria=lambda f: tuple(f.identifier()) in ids)(model)
+            res = _apply(P.InlinePass(criteria=lambda f: tuple(f.identifier()) in ids), model)
         else:
             res = _run_real(name, model)
+    except PassTimeout as e:
+        _nonterm_failure(part, name, "correspondence", str(e), {"origin": case_id, "seq": [name], "where": where})
+        return False
     except Exception as e:  # noqa: BLE001
         # the theorems assume validF: a model on which the real pass raises must not satisfy it
         part.count("fcorr_real_pass_raised:" + _base_name(name) + ":" + type(e).__name__)
@@ -2464,9 +2527,13 @@ def _check_sequence(proto: onnx.ModelProto, seq: list[str], inputs: list[dict], 
     for step, name in enumerate(seq):
         p = PASSES[name]()
         try:
-            r = p(model)
+            r = _apply(p, model)
             model = r.model
             res["modified"].append(bool(r.modified))
+        except PassTimeout as e:
+            res.update(status="fail", kind="nontermination", **{"pass": name}, step=step, exc="PassTimeout",
+                       before_step=raw_prev, detail=str(e))
+            return res
         except Exception as e:  # noqa: BLE001
             if _excluded(name, e):
                 res["status"] = "excluded"
@@ -2582,6 +2649,10 @@ def _classify(kind: str, pass_name: str, model: onnx.ModelProto, fail: dict) -> 
     base = _base_name(pass_name)
     ops = _op_types(model)
     detail = fail.get("detail", "")
+    if kind == "nontermination":
+        if any(f.domain == "" and f.name == "Identity" for f in model.functions):
+            return "function-named-identity"
+        return "ops=" + "+".join(sorted(ops)[:6])
     if base == "CommonSubexpressionEliminationPass" and kind == "checker":
         if "Field 'type' of 'value_info'" in detail:
             return "output-replaced-by-untyped-value"
@@ -2966,7 +3037,7 @@ def oracle(part, case_id, proto_before: onnx.ModelProto, seq_names: list[str], i
         r1 = _check_sequence(mid, [pname], inputs, {})
         if r1["status"] == "fail" and r1["kind"] == kind:
             model, seq, fail = mid, [pname], r1
-    if minimise:
+    if minimise and kind != "nontermination":  # every evaluation of a candidate would cost the whole guard
         m2, s2, f2, fl2 = _minimise(model, seq, inputs, kind, pname)
         if fl2 is not None:
             model, seq, feeds, fail = m2, s2, f2, fl2
@@ -3059,13 +3130,15 @@ def _apply_stepwise(name: str, raw: bytes) -> tuple:
         for _step in range(1 if kind == "seq" else 2):
             modified = False
             for n in names:
-                r = PASSES[n]()(model)
+                r = _apply(PASSES[n](), model)
                 model = r.model
                 modified = modified or bool(r.modified)
             overall = overall or modified
             if kind == "pm" and not modified:
                 break
         return ("ok", ir.serde.serialize_model(model).SerializeToString(), overall)
+    except PassTimeout:
+        return ("timeout", "stepwise:" + name, None)
     except Exception as e:  # noqa: BLE001
         return ("raised", "PassError" if True else type(e).__name__, None)
 
@@ -3075,8 +3148,10 @@ def _apply_bytes(inst, raw: bytes) -> tuple:
 
     try:
         model = ir.serde.deserialize_model(_parse(raw))
-        res = inst(model)
+        res = _apply(inst, model)
         return ("ok", ir.serde.serialize_model(res.model).SerializeToString(), bool(res.modified))
+    except PassTimeout:
+        return ("timeout", "instance:" + type(inst).__name__, None)
     except Exception as e:  # noqa: BLE001
         return ("raised", type(e).__name__, None)
 
@@ -3131,9 +3206,21 @@ def _reuse_check(part, raw: bytes, prev_raw: bytes | None, origin) -> None:
         got = _apply_bytes(inst, raw)
         want = _apply_bytes(_make_instance(name), raw)
         part.count("reuse_checks")
+        if "timeout" in (got[0], want[0]):
+            # a timed-out instance may be half-way through its state: do not reuse it
+            _REUSED.pop(name, None)
+            _nonterm_failure(part, name, "reused-or-fresh-instance", f"{got[1] if got[0] == 'timeout' else want[1]}",
+                             {"kind": "instance-state", "pass": name, "origin": origin,
+                              "model_b64": base64.b64encode(raw).decode(), "seq": [name]})
+            continue
         if name in _REUSE_CHAINS:
             step = _apply_stepwise(name, raw)
             part.count("chain_stepwise_checks")
+            if step[0] == "timeout":
+                _nonterm_failure(part, name, "stepwise-chain", step[1],
+                                 {"kind": "chain-vs-stepwise", "pass": name, "origin": origin,
+                                  "model_b64": base64.b64encode(raw).decode(), "seq": [name]})
+                continue
             if step != want:
                 sig = f"chain-vs-stepwise:{_base_name(name)}:differs"
                 if not any(f["signature"] == sig for f in part["failures"]) and len(part["failures"]) < 40:
@@ -3220,7 +3307,12 @@ def _stochastic_twins_stream(part) -> None:
         for name in cse:
             part.count("stochastic_twin_checks")
             model = ir.serde.deserialize_model(_parse(raw))
-            PASSES[name]()(model)
+            try:
+                _apply(PASSES[name](), model)
+            except PassTimeout as e:
+                _nonterm_failure(part, name, "stochastic-twins", str(e),
+                                 {"model_b64": base64.b64encode(raw).decode(), "seq": [name], "kind": "stochastic-twins"})
+                continue
             left = sum(1 for n in model.graph if n.op_type == op)
             if left != 2:
                 sig = f"cse-merged-stochastic:CommonSubexpressionEliminationPass:{op}"
@@ -3350,35 +3442,14 @@ def _identity_function_model() -> bytes:
     return oh.make_model(g, opset_imports=imp, ir_version=10, functions=[f_identity]).SerializeToString()
 
 
-def _finding_acknowledged(fid: str) -> bool:
-    """a finding that the maintainer has entered in known_findings.json (`known` or `fixed`)"""
-    import json as _json
-
-    from harness.common import KNOWN_FILE
-
-    try:
-        with open(KNOWN_FILE) as f:
-            k = _json.load(f)
-    except Exception:  # noqa: BLE001
-        return False
-    return any(e.get("id") == fid for sec in ("known", "fixed") for e in k.get(sec, []))
-
-
 def _identity_function_stream(part) -> None:
-    """D301: InlinePass forwards a returned function input through a standard Identity node; when the model defines
-    a local function of that identifier which returns its input, the forwarding node is itself a call that is
-    inlined into a forwarding node, without end.  The pass runs under an alarm (main process, main thread).
-    Termination is part of the property (a pass that does not return preserves nothing); the hang is a failure once
-    the maintainer has entered D301 in known_findings.json, before that it is counted and printed only."""
-    import signal
-    import threading
-
+    """D301 (fixed in /repo as c0ac427): InlinePass forwards a returned function input through a standard Identity
+    node; when the model defines a local function of that identifier which returns its input, the forwarding node is
+    itself a call that was inlined into a forwarding node, without end.  Termination is part of the property (a pass
+    that does not return preserves nothing): the pass runs under the guard of `_apply` (5 s of CPU here)."""
     import onnx_ir as ir
     from onnx_ir.passes import common as P
 
-    if threading.current_thread() is not threading.main_thread():
-        part.count("identity_function_stream:skipped_not_main_thread")
-        return
     raw = _identity_function_model()
     try:
         onnx.checker.check_model(_parse(raw))
@@ -3386,36 +3457,21 @@ def _identity_function_stream(part) -> None:
         part.count("identity_function_stream:checker_rejects")
         return
     model = ir.serde.deserialize_model(_parse(raw))
-
-    def _alarm(signum, frame):
-        raise TimeoutError("InlinePass did not return within 5 s")
-
-    old = signal.signal(signal.SIGALRM, _alarm)
-    signal.setitimer(signal.ITIMER_REAL, 5.0)
     try:
-        try:
-            P.InlinePass()(model)
-            outcome = "returned"
-        except TimeoutError:
-            outcome = "timeout"
-        except Exception as e:  # noqa: BLE001
-            outcome = "raised:" + type(e).__name__ + ("<" + type(e.__cause__).__name__ + ">" if e.__cause__ else "")
-    finally:
-        signal.setitimer(signal.ITIMER_REAL, 0)
-        signal.signal(signal.SIGALRM, old)
+        _apply(P.InlinePass(), model, cpu_s=5.0, wall_s=120.0)
+        outcome = "returned"
+    except PassTimeout:
+        outcome = "timeout"
+    except Exception as e:  # noqa: BLE001
+        outcome = "raised:" + type(e).__name__ + ("<" + type(e.__cause__).__name__ + ">" if e.__cause__ else "")
     del model
     part.count("identity_function_stream:" + outcome)
     if outcome == "timeout":
-        fail = {"signature": "nontermination:InlinePass:function-named-identity",
-                "what": "InlinePass does not return on a checker-valid model that defines the local function ::Identity "
-                        "returning its input: the Identity node that forwards the returned input is inlined as a call "
-                        "to that function, again and again (D301, proposed_fixes/D301.diff)",
-                "case": {"model_b64": base64.b64encode(raw).decode(), "seq": ["InlinePass"], "kind": "identity-function"}}
-        if _finding_acknowledged("D301"):
-            part["failures"].append(fail)
-        else:
-            part.count("finding_not_yet_acknowledged:D301:" + fail["signature"])
-            print("NOTE: property=C05 D301 [" + fail["signature"] + "] " + fail["what"], flush=True)
+        _nonterm_failure(part, "InlinePass", "function-named-identity",
+                         "checker-valid model that defines the local function ::Identity returning its input: the "
+                         "Identity node that forwards the returned input is inlined as a call to that function, again "
+                         "and again (D301)",
+                         {"model_b64": base64.b64encode(raw).decode(), "seq": ["InlinePass"], "kind": "identity-function"})
 
 
 def _fn_edge_stream(part) -> None:
